@@ -188,12 +188,18 @@ func ObserveNode(n *Node, q *QueryCtx) []Fact {
 			for i, t := range toks {
 				add("state:bynumber:"+qs[i].Kind, k+"/"+qs[i].String(), t)
 			}
+			for i, t := range ObserveCasm(bc, q.U.Classes, ByNumber, num, nil) {
+				add("state:bynumber:casm", k+"/casm("+q.U.Classes[i]+")", t)
+			}
 		}
 		for _, bh := range q.BlockHashes {
 			toks := Observe(bc, q.U, ByHash, 0, bh)
 			qs := q.U.Queries()
 			for i, t := range toks {
 				add("state:byhash:"+qs[i].Kind, Hex(bh)+"/"+qs[i].String(), t)
+			}
+			for i, t := range ObserveCasm(bc, q.U.Classes, ByHash, 0, bh) {
+				add("state:byhash:casm", Hex(bh)+"/casm("+q.U.Classes[i]+")", t)
 			}
 		}
 	}
@@ -202,6 +208,9 @@ func ObserveNode(n *Node, q *QueryCtx) []Fact {
 		qs := q.U.Queries()
 		for i, t := range toks {
 			add("state:head:"+qs[i].Kind, qs[i].String(), t)
+		}
+		for i, t := range ObserveCasm(bc, q.U.Classes, Head, 0, nil) {
+			add("state:head:casm", "casm("+q.U.Classes[i]+")", t)
 		}
 	}
 	// events
@@ -446,14 +455,15 @@ func hexBE(b []byte) string {
 
 func u64(b []byte) uint64 { return binary.BigEndian.Uint64(b) }
 
-func isSysKey(addr []byte) bool {
+// IsSysKey: the 32-byte address is one of the system contracts 0x1 / 0x2.
+func IsSysKey(addr []byte) bool {
 	v := new(big.Int).SetBytes(addr)
 	return v.IsUint64() && (v.Uint64() == 1 || v.Uint64() == 2)
 }
 
 // ModelFamilies decodes the node's database into the text the C04 oracle prints after "d <family> ":
-// entries sorted by key, "k.k=v" joined by ',', '-' when empty. System contracts 0x1 / 0x2 are left out
-// (not modelled).
+// entries sorted by key, "k.k=v" joined by ',', '-' when empty. The system contracts 0x1 / 0x2 are part
+// of the models and decoded like every other contract.
 func ModelFamilies(n *Node) (map[string]string, error) {
 	dump, err := DumpDB(n.DB)
 	if err != nil {
@@ -477,9 +487,6 @@ func ModelFamilies(n *Node) (map[string]string, error) {
 		if len(k) != 72 {
 			return nil, fmt.Errorf("storage history key of %d bytes", len(k))
 		}
-		if isSysKey(k[:32]) {
-			continue
-		}
 		l = append(l, hexBE(k[:32])+"."+hexBE(k[32:64])+"."+hexBE(k[64:])+"="+hexBE(e.V))
 	}
 	out["lstore"] = join(l)
@@ -490,9 +497,6 @@ func ModelFamilies(n *Node) (map[string]string, error) {
 			if len(k) != 40 {
 				return nil, fmt.Errorf("%s history key of %d bytes", name, len(k))
 			}
-			if isSysKey(k[:32]) {
-				continue
-			}
 			l = append(l, hexBE(k[:32])+"."+hexBE(k[32:])+"="+hexBE(e.V))
 		}
 		out[name] = join(l)
@@ -500,16 +504,13 @@ func ModelFamilies(n *Node) (map[string]string, error) {
 	l = nil
 	if n.NewState {
 		for _, e := range bucket(db.Contract) {
-			if isSysKey(e.K[1:]) || len(e.V) < 8 {
+			if len(e.V) < 8 {
 				continue
 			}
 			l = append(l, hexBE(e.K[1:])+"="+hexBE(e.V[len(e.V)-8:]))
 		}
 	} else {
 		for _, e := range bucket(db.ContractDeploymentHeight) {
-			if isSysKey(e.K[1:]) {
-				continue
-			}
 			l = append(l, hexBE(e.K[1:])+"="+hexBE(e.V))
 		}
 	}
@@ -595,14 +596,21 @@ func ModelFamilies(n *Node) (map[string]string, error) {
 		if len(e.V) < 42 {
 			return nil, errors.New("casm metadata shorter than 42 bytes")
 		}
-		mig := "0"
+		mig, off := "0", 41
 		if e.V[40] != 0 {
-			if len(e.V) < 49 {
+			if len(e.V) < 50 {
 				return nil, errors.New("casm metadata: migratedAt missing")
 			}
-			mig = hexBE(e.V[41:49])
+			mig, off = hexBE(e.V[41:49]), 49
 		}
-		l = append(l, hexBE(e.K[1:])+"="+hexBE(e.V[:8])+"."+mig)
+		v1 := "-"
+		if e.V[off] != 0 {
+			if len(e.V) < off+33 {
+				return nil, errors.New("casm metadata: casmHashV1 missing")
+			}
+			v1 = hexBE(e.V[off+1 : off+33])
+		}
+		l = append(l, hexBE(e.K[1:])+"="+hexBE(e.V[:8])+"."+mig+"."+v1+"."+hexBE(e.V[8:40]))
 	}
 	out["casm"] = join(l)
 	return out, nil
